@@ -63,6 +63,10 @@ def vec_ops(line):
     out = []
     for o in line.lstrip("!").split(" ")[1:]:
         f = o.split(":")
+        if f[0] == "new":
+            if f[1] == "of":
+                out.append(("push", [int(f[2])]))
+            continue
         out.append((f[0], [int(x) for x in f[1:]]))
     return out
 
@@ -107,6 +111,10 @@ def signatures(line):
             sig.append("C04-F5")
         if ff is not None:
             sig.append("C04-F6")
+    if t[0] == "veq":
+        vals = [int(x) for part in t[1:3] if part != "-" for x in part.split(",")]
+        if any(not (-2 ** 30 <= v < 2 ** 30) for v in vals):
+            sig.append("C04-F5")
     return sig
 
 
@@ -146,7 +154,7 @@ def leg_matches(tok, leg, kind):
     if leg == "unreached":
         return False
     text, end = leg
-    if kind == "vec":
+    if kind in ("vec", "veq", "seq"):
         toks = [x for x in text.decode("utf-8", "replace").split("\n") if x != ""]
         if end and end != "ok":
             if end.startswith("panic:"):
@@ -196,8 +204,21 @@ def judge(line, impl_ans, model_ans):
     a = leg_matches(mt[0], im["ts"], kind)
     b = leg_matches(mt[1], im["wasm"], kind)
     model_ok = (a is not False) and (b is not False)
-    oracle_ok = None if excluded(line) else (im["ts"] == im["wasm"] and im["ts"] != "unreached")
+    oracle_ok = None if excluded(line) else (mask_hints(line, im["ts"]) == mask_hints(line, im["wasm"]) and im["ts"] != "unreached")
     return model_ok, oracle_ok, ""
+
+
+def mask_hints(line, leg):
+    """`capacity()` is an implementation hint per the specification (backends may round up): its
+    printed value is not part of the comparison between the back ends (still compared to the model)."""
+    t = line.lstrip("!").split(" ")
+    if t[0] != "vec" or "cap" not in t or leg == "unreached":
+        return leg
+    ops = [o for o in t[1:] if not o.startswith("new:")]
+    text, end = leg
+    lines = text.decode("utf-8", "replace").split("\n")
+    out = [("<hint>" if k < len(ops) and ops[k] == "cap" else l) for k, l in enumerate(lines)]
+    return ("\n".join(out).encode(), end)
 
 
 # ------------------------------------------------------------------ generators
@@ -311,11 +332,77 @@ def gen_vec(rng, flavour):
     return "vec " + " ".join(ops)
 
 
+def gen_vec_full(rng):
+    """all Vec builtins incl. constructors, reserve, capacity; never failing, 31-bit values"""
+    line = gen_vec(rng, "ok").split(" ")[1:]
+    ctor = rng.below(3)
+    pre = []
+    if ctor == 1:
+        pre = [f"new:of:{rng.range(0, 2000) - 1000}"]
+        line = ["get:0"] + line
+    elif ctor == 2:
+        pre = [f"new:cap:{rng.pick([0, 1, 3, 4, 5, 16, 100])}"]
+    out = []
+    for o in line:
+        out.append(o)
+        if rng.chance(1, 4):
+            out.append(rng.pick(["cap", f"res:{rng.pick([-5, 0, 1, 3, 4, 5, 9, 17, 40])}", "len"]))
+    return "vec " + " ".join(pre + out)
+
+
+def gen_veq(rng, big=False):
+    """argument shapes: equal / strict prefix (both directions) / empty / differ first, middle, last /
+    same length / longer / shorter"""
+    val = (lambda: rng.pick([2 ** 30, -2 ** 30 - 1, MAX, MIN, 2 ** 30 - 1, 5])) if big else \
+        (lambda: rng.pick([rng.range(0, 6), rng.range(0, 2000) - 1000, rng.pick([-2 ** 30, 2 ** 30 - 1])]))
+    n = rng.range(0, 6)
+    a = [val() for _ in range(n)]
+    shape = rng.below(8)
+    if shape == 0:
+        b = list(a)
+    elif shape == 1:
+        b = a + [val() for _ in range(rng.range(1, 3))]
+    elif shape == 2:
+        b = a[:rng.below(len(a) + 1)]
+    elif shape == 3:
+        b = []
+    elif shape in (4, 5) and a:
+        b = list(a)
+        k = rng.pick([0, len(a) - 1, rng.below(len(a))])
+        b[k] = b[k] + 1 if b[k] < 2 ** 30 - 1 else b[k] - 1
+    elif shape == 6:
+        b = [val() for _ in range(n)]
+    else:
+        b = [val() for _ in range(rng.range(0, 6))]
+    f = lambda l: ",".join(str(x) for x in l) if l else "-"
+    return f"veq {f(a)} {f(b)}"
+
+
+def gen_seq(rng):
+    w = lambda: "".join(rng.pick("abXY01") for _ in range(rng.range(0, 4)))
+    a, na = w(), rng.pick([0, 1, 12, -3, gen_int(rng)])
+    shape = rng.below(6)
+    if shape == 0:
+        b, nb = a, na
+    elif shape == 1:
+        b, nb = a + w(), na
+    elif shape == 2:
+        b, nb = a[:rng.below(len(a) + 1)], na
+    elif shape == 3:
+        b, nb = a, rng.pick([na + 1 if na < MAX else 0, -na if na != MIN else 1, na * 10 if in_range(na * 10) else 7])
+    elif shape == 4 and na >= 0 and in_range(int("1" + str(na))):
+        b, nb = a + "1", na      # "a" :: "12" vs "a1" :: "2"-like boundary shifts
+        a, na = a, int("1" + str(na))
+    else:
+        b, nb = w(), gen_int(rng)
+    return f"seq {hexs(a)} {na} {hexs(b)} {nb}"
+
+
 def gen_stream(rng, n_bulk):
     """bulk stream: steered away from the open signatures"""
     lines = []
     for _ in range(n_bulk):
-        k = rng.weighted([("bin", 50), ("str", 22), ("i2s", 10), ("s2i", 8), ("vec", 10)])
+        k = rng.weighted([("bin", 44), ("str", 20), ("i2s", 8), ("s2i", 7), ("vec", 6), ("vecfull", 5), ("veq", 6), ("seq", 4)])
         if k == "bin":
             lines.append(gen_bin(rng))
         elif k == "str":
@@ -324,6 +411,12 @@ def gen_stream(rng, n_bulk):
             lines.append(gen_i2s(rng))
         elif k == "s2i":
             lines.append(gen_s2i(rng, rng.chance(3, 4)))
+        elif k == "vecfull":
+            lines.append(gen_vec_full(rng))
+        elif k == "veq":
+            lines.append(gen_veq(rng))
+        elif k == "seq":
+            lines.append(gen_seq(rng))
         else:
             lines.append(gen_vec(rng, "ok"))
     return lines
@@ -347,6 +440,7 @@ def gen_probes(rng, per):
         out.append(("C04-F3", gen_str(rng, "backtick")))
         out.append(("C04-F4", gen_str(rng, "nonascii")))
         out.append(("C04-F5", gen_vec(rng, "i31")))
+        out.append(("C04-F5", gen_veq(rng, big=True)))
         out.append(("C04-F6", gen_vec(rng, "fail")))
         out.append((None, gen_str(rng, "malformed")))
     return out
@@ -402,6 +496,10 @@ def nontrivial(line, impl_ans):
         return len(t[1]) >= 4
     if t[0] == "vec":
         return len(t) >= 3
+    if t[0] == "veq":
+        return t[1] != "-" or t[2] != "-"
+    if t[0] == "seq":
+        return True
     return False
 
 
@@ -603,6 +701,54 @@ class Main {
   function main(): unit = {
 """
 
+    def builtin_block(self, j, env):
+        """uses every Vec builtin (empty/of/withCapacity/push/pop/get/set/length/reserve/eq; capacity
+        only through `>= length`) and Str concat / == / != / fromInt / toInt on run-time values"""
+        r = self.rng
+        small = lambda: r.range(0, 40) - 20
+        ctor = r.below(3)
+        a, body = [], ""
+        if ctor == 0:
+            body += f"    let a{j} = Vec.empty<int>();\n"
+        elif ctor == 1:
+            v = small(); a = [v]
+            body += f"    let a{j} = Vec.of<int>(Str.fromInt({v if v >= 0 else f'({v})'}).toInt());\n"
+        else:
+            body += f"    let a{j} = Vec.withCapacity<int>({r.pick([0, 1, 4, 9])});\n"
+        for _ in range(r.range(0, 6)):
+            (sv, v) = self.int_expr(env, 1)
+            if not (-2 ** 30 <= v < 2 ** 30):
+                raise Gen.Reject()
+            a.append(v); body += f"    a{j}.push({sv});\n"
+        if r.chance(1, 2):
+            body += f"    a{j}.reserve({r.pick([-1, 0, 3, 12])});\n"
+        exp = []
+        if a and r.chance(1, 2):
+            i = r.below(len(a)); v = small(); a[i] = v
+            body += f"    a{j}.set({i}, {v if v >= 0 else f'({v})'});\n"
+        if a and r.chance(1, 3):
+            v = a.pop()
+            body += f"    let _ = Process.println(\"pop \" :: Str.fromInt(a{j}.pop()));\n"; exp.append(f"pop {v}")
+        # second vector in a chosen shape relative to the first
+        shape = r.below(5)
+        b = {0: list(a), 1: a + [small()], 2: a[:r.below(len(a) + 1)], 3: [], 4: [x + 1 for x in a]}[shape]
+        body += f"    let b{j} = Vec.empty<int>();\n" + "".join(
+            f"    b{j}.push({x if x >= 0 else f'({x})'});\n" for x in b)
+        tf = lambda c: "T" if c else "F"
+        body += (f"    let _ = Process.println((if a{j}.eq(b{j}) {{ \"T\" }} else {{ \"F\" }}) :: (if b{j}.eq(a{j}) {{ \"T\" }} else {{ \"F\" }})"
+                 f" :: (if a{j}.eq(a{j}) {{ \"T\" }} else {{ \"F\" }}) :: (if a{j}.capacity() >= a{j}.length() {{ \"T\" }} else {{ \"F\" }})"
+                 f" :: Str.fromInt(a{j}.length()) :: \",\" :: Str.fromInt(b{j}.length()));\n")
+        exp.append(tf(a == b) + tf(b == a) + "TT" + f"{len(a)},{len(b)}")
+        if a:
+            i = r.below(len(a))
+            body += f"    let _ = Process.println(Str.fromInt(a{j}.get({i}) + {len(a)}));\n"; exp.append(str(self.chk(a[i] + len(a))))
+        (s1, v1), (s2, v2) = self.str_expr(env, 1), self.str_expr(env, 1)
+        body += (f"    let s{j} = {s1} :: Str.fromInt(a{j}.length());\n    let t{j} = {s2} :: Str.fromInt(b{j}.length());\n"
+                 f"    let _ = Process.println((if s{j} == t{j} {{ \"eq \" }} else {{ \"ne \" }}) :: (if s{j} != t{j} {{ \"ne \" }} else {{ \"eq \" }}) :: s{j} :: t{j});\n")
+        x, y = v1 + str(len(a)), v2 + str(len(b))
+        exp.append(("eq " if x == y else "ne ") + ("ne " if x != y else "eq ") + x + y)
+        return body, exp
+
     def program(self):
         r = self.rng
         while True:
@@ -613,8 +759,11 @@ class Main {
                     env[f"x{i}"] = v
                     body += f"    let x{i} = \"{v}\".toInt();\n"
                 for j in range(r.range(3, 8)):
-                    k = r.below(6)
-                    if k < 3:
+                    k = r.below(8)
+                    if k >= 6:
+                        bb, ee = self.builtin_block(j, env)
+                        body += bb; expect += ee
+                    elif k < 3:
                         s, v = self.int_expr(env, 3)
                         if r.chance(1, 2):
                             env[f"y{j}"] = v
@@ -733,6 +882,12 @@ def dense_lines():
         out.append("str " + hexs("a" + (c if c != '"' else '\\"') + "b"))
     for n in vals:
         out += [f"i2s {n}", "s2i " + hexs(str(n))]
+    els = ["-", "1", "1,2", "1,2,3", "2", "1,3", "2,2,3", "1,2,4"]
+    out += [f"veq {a} {b}" for a in els for b in els]
+    strs = [("", 0), ("", 1), ("a", 1), ("a", 12), ("ab", 1), ("a1", 2), ("b", 1)]
+    out += [f"seq {hexs(a)} {x} {hexs(b)} {y}" for a, x in strs for b, y in strs]
+    out += ["vec new:of:7 get:0 push:1 cap res:20 cap len pop pop len", "vec new:cap:16 cap len push:3 cap pop len",
+            "vec new:cap:0 push:1 push:2 get:1 cap", "vec res:-1 cap res:3 cap push:1 res:9 cap get:0"]
     out += ["vec push:1 push:2 pop len get:0 set:0:5 get:0", "vec push:-1073741824 push:1073741823 get:0 get:1",
             "vec " + " ".join(f"push:{i}" for i in range(9)) + " get:8 get:0 pop len"]
     return sorted(set(out))
@@ -747,6 +902,16 @@ def search(ctx, st):
     except Exception as ex:   # harness may be unusable
         st.tie_broken.append({"line": "search", "impl": repr(ex), "model": "", "detail": "search crashed", "label": ""})
     return any(not v[1] for v in ctx.violations[before:])
+
+
+def run_runtime_pins():
+    p = subprocess.run([sys.executable, os.path.join(common.VERIF, "extract", "c04_runtime.py")],
+                       stdout=subprocess.PIPE, stderr=subprocess.STDOUT)
+    try:
+        out = json.loads(p.stdout.decode("utf-8", "replace"))
+    except ValueError:
+        out = p.stdout.decode("utf-8", "replace")[-500:]
+    return p.returncode, out
 
 
 def run_extractor():
@@ -772,6 +937,19 @@ def run(ctx):
             ctx.violation("operator-table translator extract/c04_tsops.py no longer understands the source: " + xlog.strip()[-300:],
                           {"broken": "tie: Generated/TsOps.lean cannot be regenerated from /repo", "log": xlog[-2000:]}, no_input=True)
     stats = {}
+    pins = None
+    if harness_ok:
+        prc, pout = run_runtime_pins()
+        pins = {"rc": prc, "changed": pout}
+        if prc != 0:
+            # a runtime builtin no longer has the text its model was written from: the theorems about
+            # it no longer speak about this code -> search every builtin with every argument shape
+            found = (searched[0] or do_search()) and any(not v[1] for v in ctx.violations)
+            if not found and not any(not v[1] for v in ctx.violations):
+                names = ", ".join(c.get("builtin", "?") for c in pout) if isinstance(pout, list) else str(pout)
+                ctx.violation("runtime builtin(s) changed, models in Model/Backends.lean no longer tied: " + names[:200],
+                              {"broken": "tie: extract/c04_runtime.py (text of ts_prolog()/libsam.wat/loader.js vs pinned normal form)",
+                               "changed": pout}, no_input=True)
     if harness_ok:
         rng = ctx.rng
         cdir = os.path.join(common.VERIF, "corpus", PROP)
@@ -798,7 +976,7 @@ def run(ctx):
         "rule": "micro-operations (bin: 11 source-reachable operators x boundary/random int32 operands in all sign combinations; str: literals over an alphabet with \\\" $ { } ' and, in the probe stream, escapes, CR, back quote, ${, non-ASCII, malformed; i2s/s2i; vec: call sequences on Vec<int>) each compiled by the real compiler and executed on both real back ends and both models; non-trivial = distinct op line that ran on both back ends with non-zero operands / non-empty literal / >= 2 Vec calls / >= 2 digits; plus whole generated programs (ints, bools, strings, enum match, record, closure, recursion, Vec) and tests.AllTests, counted when both back ends ran and agreed",
         "samples": st.samples, "traces_validated_against_impl": st.evals,
         "op_histogram": st.hist, "program_oracle": stats,
-        "operator_table_extractor": xlog.strip()[-200:],
+        "operator_table_extractor": xlog.strip()[-200:], "runtime_text_tie": pins,
         "partial_theorems": {
             "bin_agree_partial": "DIV: a % b = 0 or operands of equal sign (exact by div_agree_iff); SHR: 0 <= a",
             "i31_roundtrip_partial": "-2^30 <= n < 2^30 (exact by i31_roundtrip_iff)",
